@@ -5,6 +5,7 @@ package cli
 
 import (
 	"context"
+	"errors"
 	"fmt"
 	"net"
 	"strconv"
@@ -53,6 +54,9 @@ type Scenario struct {
 	WriteErr      bool `json:"write_err,omitempty"`
 	// CancelBefore: the context is already cancelled when Do is called
 	CancelBefore bool `json:"cancel_before,omitempty"`
+	// WithCause: the caller's context is created with context.WithCancelCause / WithDeadlineCause and ends with a cause of its own
+	// (ErrCause). The call must still report the context's error (context.Canceled / DeadlineExceeded), not the cause.
+	WithCause bool `json:"with_cause,omitempty"`
 	// DeadlineMs > 0: the caller's context carries a deadline this many milliseconds after the call starts
 	// (-1: a deadline that has already passed)
 	DeadlineMs int `json:"deadline_ms,omitempty"`
@@ -158,6 +162,10 @@ type Outcome struct {
 	PriorRespAtReturn, PriorRespAfter []byte
 }
 
+// ErrCause is the cause attached to the caller's context when Scenario.WithCause is set (itself a *ClientError, as a watchdog that
+// cancels with the previous transport failure would attach).
+var ErrCause error = &modbus.ClientError{Err: errors.New("watchdog: earlier transport failure")}
+
 // HangCeiling is how long a call may run before it is declared hung.
 var HangCeiling = 10 * time.Second
 
@@ -181,6 +189,11 @@ func Run(sc Scenario) (out Outcome) {
 		rt = 2 * time.Second
 	}
 	ctx, cancel := context.WithCancel(context.Background())
+	if sc.WithCause {
+		var cc context.CancelCauseFunc
+		ctx, cc = context.WithCancelCause(context.Background())
+		cancel = func() { cc(ErrCause) }
+	}
 	defer cancel()
 	script := &xport.Script{Stream: append([]byte(nil), sc.Stream...), Events: append([]xport.Event(nil), sc.Events...), WriteErr: sc.WriteErr, OnCancel: cancel}
 	seq := 0
@@ -343,7 +356,11 @@ func Run(sc Scenario) (out Outcome) {
 	if sc.DeadlineMs != 0 {
 		d := time.Duration(sc.DeadlineMs) * time.Millisecond
 		var dcancel context.CancelFunc
-		ctx, dcancel = context.WithDeadline(ctx, time.Now().Add(d))
+		if sc.WithCause {
+			ctx, dcancel = context.WithDeadlineCause(ctx, time.Now().Add(d), ErrCause)
+		} else {
+			ctx, dcancel = context.WithDeadline(ctx, time.Now().Add(d))
+		}
 		defer dcancel()
 	}
 	type res struct {
